@@ -38,6 +38,7 @@ pub enum Exhausted {
 
 #[derive(Debug, Clone)]
 pub struct CallRecord {
+    pub started: Instant,
     pub offered: usize,
     pub result: Result<usize, io::ErrorKind>,
     pub at: Instant,
@@ -129,6 +130,7 @@ impl TestPort {
 
 impl Read for TestPort {
     fn read(&mut self, buf: &mut [u8]) -> io::Result<usize> {
+        let started = Instant::now();
         let mut s = self.st.borrow_mut();
         let call = s.read_calls.len();
         s.order.push(b'r');
@@ -158,13 +160,14 @@ impl Read for TestPort {
                 }
             }
         };
-        s.read_calls.push(CallRecord { offered: buf.len(), result, at: Instant::now() });
+        s.read_calls.push(CallRecord { started, offered: buf.len(), result, at: Instant::now() });
         result.map_err(|k| io::Error::new(k, "injected read fault"))
     }
 }
 
 impl Write for TestPort {
     fn write(&mut self, buf: &[u8]) -> io::Result<usize> {
+        let started = Instant::now();
         let mut s = self.st.borrow_mut();
         let call = s.write_calls.len();
         s.order.push(b'w');
@@ -183,7 +186,7 @@ impl Write for TestPort {
                 Ok(n)
             }
         };
-        s.write_calls.push(CallRecord { offered: buf.len(), result, at: Instant::now() });
+        s.write_calls.push(CallRecord { started, offered: buf.len(), result, at: Instant::now() });
         result.map_err(|k| io::Error::new(k, "injected write fault"))
     }
 
